@@ -12,6 +12,7 @@ pyrepseq = boot.import_pyrepseq()
 from pyrepseq.metric import Levenshtein, WeightedLevenshtein  # noqa: E402
 
 PROPERTY = "C08"
+QUICK_SCALE = 2
 RULE = ("string collections of 0-12 strings, lengths 0-60 over arbitrary alphabets (Unicode included) plus up to 3 long strings "
         "(200-400) derived from one another by a handful of edits and homopolymer pairs A*n / C*n; weight triples in 1..30 incl. "
         "ins != del and sub > ins+del, containers list / tuple / ndarray / Series. Oracle: own (weighted) Wagner-Fischer per "
@@ -104,7 +105,11 @@ def check_functional(case, rec):
     A, B, fname = case["A"], case["B"], case["func"]
     kw = dict(case.get("kwargs", {}))
     f = FUNCS[fname]
-    ref = (lambda a, b: O.lev(a, b)) if f is None else (lambda a, b: f(a, b, **kw))
+    if f is None and "weights" in kw:
+        kw["weights"] = tuple(kw["weights"])
+        ref = lambda a, b: O.wlev(a, b, *kw["weights"])  # noqa: E731 - the default metric must receive the forwarded weights
+    else:
+        ref = (lambda a, b: O.lev(a, b)) if f is None else (lambda a, b: f(a, b, **kw))
     m = len(A)
     rec.note(case, m >= 3 and (fname in ("asym", "kw", "real")), [fname, case["dtype"], "kwargs" if kw else "no_kwargs"])
     dtype = {"uint8": np.uint8, "int64": np.int64, "float64": np.float64, "default": None}[case["dtype"]]
@@ -183,6 +188,8 @@ def functional_case(draw, tier="quick"):
         case["dtype"] = "float64"
     if fname == "kw" and draw(st.booleans()):
         case["kwargs"] = {"scale": draw(st.integers(1, 5)), "offset": draw(st.integers(0, 9))}
+    if fname == "default" and draw(st.booleans()):
+        case["kwargs"] = {"weights": draw(st.sampled_from([[1, 1, 2], [1, 2, 1], [2, 1, 3]]))}
     return case
 
 
